@@ -1,7 +1,7 @@
 (* C17 — Served data equals ingested state; nothing outlives its deletion.
    Statements only; proofs in MetricsProofs.v.  Model: Metrics (registry, scrape, the Delete functions) over Storage.step and Eval.eval_group. *)
 From Coq Require Import ZArith List Bool String.
-From Burrow Require Import Int64 F32 Eval AMap Ring Storage Metrics MetricsProofs.
+From Burrow Require Import Int64 F32 Eval AMap Ring Storage StorageProofs Metrics MetricsProofs MetricsFullProofs.
 From BurrowGen Require Import JsonTags.
 Import ListNotations.
 Open Scope Z_scope.
@@ -38,24 +38,20 @@ Proof. exact delete_topic_metrics_v0_refuted. Qed.
 Print Assumptions C17_delete_topic_metrics_v0_refuted.
 
 (* ==== metrics_equal_state ====
-   FULL STATEMENT (the property at its strongest reading):
-     forall sc clusters h sy now sy' k,
-       sys_run sc (init_sys clusters) h = Some sy -> scrape sc now sy = Some sy' ->
-       reg_get (s_reg sy') k = expected sc now (s_st sy') k
-   for every history h of ingest, deletions, status requests AND earlier scrapes.  Proved below:
-   (1) C17_scrape_reports_state: for every system state whatsoever (hence every history), after a scrape every series the live
-       state calls for is present with the state's value (each offset / lag / status attributed to its own group, topic and
-       partition id through [written] / [expected]);
-   (2) C17_scrape_never_invents: a series the state does not call for is absent after the scrape unless it was in the registry
-       before that scrape; and a scrape leaves no expired group behind (C17_scrape_purges_expired);
-   (3) C17_metrics_equal_state_first_scrape: exact equality for every history without an earlier scrape (any ingest, deletion,
-       fetch and status requests in any order, then the scrape) - the property's own quantifier "ingest histories followed by reads";
-   (4) the no_series_outlives theorems: every deletion path removes the item's series and the next scrape does not bring them back.
-   MISSING for the full statement: that a series written by an EARLIER scrape and not removed by a deletion path is still called
-   for at the later scrape, i.e. that what a scrape writes only ever grows between deletions (partition lists and broker
-   partitions never shrink, a window that is complete stays complete).  That is a monotonicity invariant of Storage.step /
-   Ring.ring_step (window shape, RingProofs / StorageProofs), not of this layer; the probe compares the exact registry on
-   every generated history (several scrapes per history). *)
+   C17_metrics_equal_state is the property at its strongest reading: for EVERY history of ingest, deletions through their paths,
+   status requests and EARLIER SCRAPES, the registry after a scrape is exactly what the live state calls for, key by key (each
+   offset / lag / status attributed to its own group, topic and partition id through [expected] / [written]).
+   Side conditions (all about the configuration / the shape of requests, none about the history's length or order):
+     1 <= intervals <= 2^24   (float32: beyond 2^24 slots (n-1)/n rounds to 1.0, EvalCompleteProofs)
+     the configured cluster names are distinct
+     op_ok: a SetBrokerOffset names a partition below its partition count and offsets are int64 (StorageProofs.wf_req: otherwise
+            the storage worker panics), and StorageSetDeleteTopic reaches storage only together with DeleteTopicMetrics
+            (OTopicDeleted; the regenerated table C17_delete_sites_table shows the tree has no other sender;
+            C17_bare_delete_topic_refuted shows the condition is needed).
+   No series can be called for at one scrape and not at the next without a deletion path having run in between
+   (MetricsFullProofs.step_live: groups, partition lists and broker partitions only disappear through DeleteTopic / DeleteGroup /
+   the expiry purge, whose metric deletions remove exactly those series; a full window stays full).
+   C17_scrape_reports_state / C17_scrape_never_invents / C17_metrics_equal_state_first_scrape need no side condition at all. *)
 Theorem C17_scrape_reports_state :
   forall sc now sy sy' k,
     scrape sc now sy = Some sy' -> expected sc now (s_st sy') k <> None ->
@@ -79,19 +75,41 @@ Theorem C17_metrics_equal_state_first_scrape :
 Proof. exact metrics_equal_state_first_scrape. Qed.
 Print Assumptions C17_metrics_equal_state_first_scrape.
 
-(* the combination, named as the README asks: what is proved of the full statement for ALL histories *)
-Theorem C17_metrics_equal_state_partial :
+Theorem C17_metrics_equal_state :
   forall sc clusters h sy now sy' k,
+    (1 <= cf_intervals (sc_st sc))%nat -> Z.of_nat (cf_intervals (sc_st sc)) <= 2 ^ 24 -> NoDup clusters ->
+    Forall (fun no => op_ok (snd no)) h ->
     sys_run sc (init_sys clusters) h = Some sy -> scrape sc now sy = Some sy' ->
-    (expected sc now (s_st sy') k <> None -> reg_get (s_reg sy') k = expected sc now (s_st sy') k) /\
-    (reg_get (s_reg sy') k <> expected sc now (s_st sy') k ->
-       expected sc now (s_st sy') k = None /\ reg_get (s_reg sy') k = reg_get (s_reg sy) k).
-Proof.
-  intros sc clusters h sy now sy' k _ Hs. split.
-  - exact (scrape_reports_state sc now sy sy' k Hs).
-  - intros Hne. destruct (scrape_spec sc now sy sy' k Hs) as [Hc|Hx]; [contradiction|exact Hx].
-Qed.
-Print Assumptions C17_metrics_equal_state_partial.
+    reg_get (s_reg sy') k = expected sc now (s_st sy') k.
+Proof. exact metrics_equal_state. Qed.
+Print Assumptions C17_metrics_equal_state.
+
+(* what "called for" means structurally: the group exists / the partition is in the group's list for that topic / its window
+   is full / the broker partition has an offset *)
+Theorem C17_expected_iff_live :
+  forall sc clusters h sy now sy' k,
+    (1 <= cf_intervals (sc_st sc))%nat -> Z.of_nat (cf_intervals (sc_st sc)) <= 2 ^ 24 -> NoDup clusters ->
+    Forall (fun no => op_ok (snd no)) h ->
+    sys_run sc (init_sys clusters) h = Some sy -> scrape sc now sy = Some sy' ->
+    (expected sc now (s_st sy') k <> None <-> live (s_st sy') k).
+Proof. exact expected_iff_live. Qed.
+Print Assumptions C17_expected_iff_live.
+
+(* a StorageSetDeleteTopic without DeleteTopicMetrics (excluded by op_ok; no function of the tree sends one) leaves series behind *)
+Theorem C17_bare_delete_topic_refuted :
+  exists sc cls h sy now sy' k,
+    sys_run sc (init_sys cls) h = Some sy /\ scrape sc now sy = Some sy' /\
+    reg_get (s_reg sy') k <> expected sc now (s_st sy') k.
+Proof. exact bare_delete_topic_refuted. Qed.
+Print Assumptions C17_bare_delete_topic_refuted.
+
+Example C17_metrics_equal_state_nonvacuous :
+  Forall (fun no => op_ok (snd no)) ex_full_hist /\
+  exists sy sy',
+    sys_run (wsc 1 604800) (init_sys [1]) ex_full_hist = Some sy /\ scrape (wsc 1 604800) 1007 sy = Some sy' /\
+    reg_get (s_reg sy') (KTopic 1 1 1) = Some 200 /\ reg_get (s_reg sy') (KGroup GStatus 1 1) = None.
+Proof. exact metrics_equal_state_nonvacuous. Qed.
+Print Assumptions C17_metrics_equal_state_nonvacuous.
 
 (* ==== each offset attributed to its OWN partition ====
    FULL STATEMENT: forall sc now st c t p, expected sc now st (KTopic c t p) = broker_offset st c t p.
